@@ -15,7 +15,7 @@ RULE = ('(a) complete sweep of the deadline tie: the matching data placed at eve
         'Added later: the tie sweep also delivers NON-matching text, uses select and poll, and runs on a uniformly slow machine '
         '(0.2 ms per call, +-1 ms in 25 us steps); a peer that delivers only the head of a multi-byte character; runs of EINTR at '
         '50..97 % of the timeout; the socket object\'s own timeout varied; processes with > 1024 descriptors (poll only). '
-        'Non-trivial: the call blocked at least once or consumed a read; distinct by trace digest')
+        'Ninth round: timeouts of months to decades (2.2e6 .. 1e9 s, int and float) with an answer that arrives soon -- the simulated poll() refuses more than a C int of milliseconds as the real one does. Non-trivial: the call blocked at least once or consumed a read; distinct by trace digest')
 
 ASSUME = ['no wall-clock steps are injected (pexpect computes deadlines from time.time())',
           'death latency of a signalled child is within pexpect\'s 0.1 s grace sleeps',
